@@ -15,6 +15,7 @@ R(k, i, n, v, sz) == [k |-> k, i |-> i, n |-> n, v |-> v, sz |-> sz]
 MCFeed == { [k |-> "size", max |-> 0], [k |-> "size", max |-> 70], [k |-> "size", max |-> 4096], [k |-> "size", max |-> 4097],
             [k |-> "indexed", i |-> 0], [k |-> "indexed", i |-> 2], [k |-> "indexed", i |-> 61], [k |-> "indexed", i |-> 62],
             [k |-> "indexed", i |-> 63], [k |-> "indexed", i |-> 200],
+            [k |-> "indexed", i |-> 2000000000], R("noidx", 2000000000, "", "k", 37),   \* 2000000000 stands for 2^63 (see the harness): beyond any table, and beyond int64
             R("incr", 0, "vf-a", "1", 37), R("incr", 15, "", "x", 47), R("incr", 62, "", "2", 37), R("incr", 99, "", "2", 37),
             R("incr", 0, "vf-b", "0123456789012345678901234567890123456789012345678901234567890123", 100),
             R("noidx", 0, "vf-a", "3", 37), R("never", 62, "", "k", 37), R("noidx", 70, "", "k", 37) }
